@@ -80,15 +80,21 @@ Fixpoint check_il (ls : list (list ev)) (tr : list ev) : bool :=
 Record state := { st_fs : fsys; st_rd : dict nat (option content); st_out : dict nat outcome }.
 Definition init (fs0 : fsys) : state := {| st_fs := fs0; st_rd := []; st_out := [] |}.
 
-Definition step (files : list path) (T : transformer) (fnd : path -> findings) (st : state) (e : ev) : state :=
+(** Where a task keeps what it has read.  [TaskLocal]: in its own slot (the locals of _process_file, its own
+    FileContext and trees) -- what the translator reads off the source.  [SharedScratch]: every task uses the same
+    slot (an object stored on the codemod / pipeline / run context and reused across files). *)
+Definition rd_slot (loc : locality_form) (i : nat) : nat :=
+  match loc with TaskLocal => i | SharedScratch => 0 end.
+
+Definition step (loc : locality_form) (files : list path) (T : transformer) (fnd : path -> findings) (st : state) (e : ev) : state :=
   match e with
   | Read i =>
       match nth_error files i with
-      | Some p => {| st_fs := st_fs st; st_rd := dset Nat.eqb i (lookup (st_fs st) p) (st_rd st); st_out := st_out st |}
+      | Some p => {| st_fs := st_fs st; st_rd := dset Nat.eqb (rd_slot loc i) (lookup (st_fs st) p) (st_rd st); st_out := st_out st |}
       | None => st
       end
   | Compute i =>
-      match nth_error files i, dget Nat.eqb i (st_rd st) with
+      match nth_error files i, dget Nat.eqb (rd_slot loc i) (st_rd st) with
       | Some p, Some c => {| st_fs := st_fs st; st_rd := st_rd st; st_out := dset Nat.eqb i (T p (fnd p) c) (st_out st) |}
       | _, _ => st
       end
@@ -99,12 +105,20 @@ Definition step (files : list path) (T : transformer) (fnd : path -> findings) (
       end
   end.
 
-Definition exec (files : list path) (T : transformer) (fnd : path -> findings) (fs0 : fsys) (tr : list ev) : state :=
-  fold_left (step files T fnd) tr (init fs0).
+Definition exec (loc : locality_form) (files : list path) (T : transformer) (fnd : path -> findings) (fs0 : fsys) (tr : list ev) : state :=
+  fold_left (step loc files T fnd) tr (init fs0).
+
+(** The states after each event of the trace (used to compare what a task read / left behind with what was observed). *)
+Fixpoint exec_states (loc : locality_form) (files : list path) (T : transformer) (fnd : path -> findings) (st : state) (tr : list ev)
+  : list (ev * state) :=
+  match tr with
+  | [] => []
+  | e :: r => let st' := step loc files T fnd st e in (e, st') :: exec_states loc files T fnd st' r
+  end.
 
 (** One codemod over its file list: detector first, on the untouched project; then the pool. *)
-Definition run_codemod (files : list path) (T : transformer) (D : detector) (fs0 : fsys) (tr : list ev) : state :=
-  exec files T (D fs0) fs0 tr.
+Definition run_codemod (loc : locality_form) (files : list path) (T : transformer) (D : detector) (fs0 : fsys) (tr : list ev) : state :=
+  exec loc files T (D fs0) fs0 tr.
 
 (** The sequential schedule (what --max-workers 1 does). *)
 Definition sequential (n : nat) : list ev := concat (tasks n).
@@ -122,8 +136,16 @@ Definition merged (v : collect_form) (n : nat) (tr : list ev) (st : state) : fre
   fold_left fres_add (map (res_of st) (collect_order v n tr)) fres_empty.
 
 (* ------------------------------------------------------------------------------------------------ *)
-(** * The bounded pool *)
-Inductive pev := Start (i : nat) | Finish (i : nat).
+(** * The bounded pool
+    Model of concurrent.futures.ThreadPoolExecutor as far as the number of files in flight is concerned:
+    submit() puts the work item on the queue and (_adjust_thread_count) may start a new worker thread only while
+    fewer than max_workers threads exist; a worker thread takes one queued item at a time and runs it to the end.
+    The bound on the files in flight is DERIVED from this (a file is in flight iff a worker is running it). *)
+Inductive pev :=
+| Submit (i : nat)        (* executor.map submits the items in input order *)
+| Spawn                   (* a new worker thread *)
+| Take (k i : nat)        (* worker k takes item i off the queue: _process_file starts *)
+| Done (k : nat).         (* worker k has finished its item *)
 
 Definition default_workers (cpu : N) : N := N.min 32 (cpu + 4).
 (** the bound the executor is created with, given --max-workers [w] *)
@@ -134,64 +156,105 @@ Definition mem_nat (i : nat) (l : list nat) : bool := existsb (Nat.eqb i) l.
 Fixpoint remove_nat (i : nat) (l : list nat) : list nat :=
   match l with [] => [] | j :: r => if Nat.eqb i j then r else j :: remove_nat i r end.
 
-(** Contract of ThreadPoolExecutor(max_workers=b): a submitted task is started only while fewer than [b]
-    tasks are running; each task is started at most once and finishes only if it is running. *)
-Fixpoint admissible (b : N) (running started : list nat) (tr : list pev) : bool :=
+Record pool := { p_queue : list nat; p_workers : list (option nat) }.
+Definition pool_init : pool := {| p_queue := []; p_workers := [] |}.
+
+Definition pool_step (b : N) (p : pool) (e : pev) : option pool :=
+  match e with
+  | Submit i => Some {| p_queue := p_queue p ++ [i]; p_workers := p_workers p |}
+  | Spawn =>
+      if (N.of_nat (length (p_workers p)) <? b)%N
+      then Some {| p_queue := p_queue p; p_workers := p_workers p ++ [None] |} else None
+  | Take k i =>
+      match nth_error (p_workers p) k with
+      | Some None =>
+          if mem_nat i (p_queue p)
+          then Some {| p_queue := remove_nat i (p_queue p); p_workers := upd (p_workers p) k (Some i) |} else None
+      | _ => None
+      end
+  | Done k =>
+      match nth_error (p_workers p) k with
+      | Some (Some _) => Some {| p_queue := p_queue p; p_workers := upd (p_workers p) k None |}
+      | _ => None
+      end
+  end.
+(** [None]: the event list is not an execution of a pool with bound [b] *)
+Fixpoint pool_run (b : N) (p : pool) (tr : list pev) : option pool :=
   match tr with
-  | [] => true
-  | Start i :: r =>
-      (N.of_nat (length running) <? b)%N && negb (mem_nat i started) && admissible b (i :: running) (i :: started) r
-  | Finish i :: r => mem_nat i running && admissible b (remove_nat i running) started r
+  | [] => Some p
+  | e :: r => match pool_step b p e with Some p' => pool_run b p' r | None => None end
   end.
 
-Definition starts (tr : list pev) : nat := length (List.filter (fun e => match e with Start _ => true | _ => false end) tr).
-Definition finishes (tr : list pev) : nat := length (List.filter (fun e => match e with Finish _ => true | _ => false end) tr).
-(** files being processed after the trace [tr] *)
-Definition inflight (tr : list pev) : nat := starts tr - finishes tr.
-Fixpoint max_inflight_from (cur : nat) (tr : list pev) : nat :=
+(** files in flight = workers running an item *)
+Fixpoint busy_of (ws : list (option nat)) : nat :=
+  match ws with [] => 0 | Some _ :: r => S (busy_of r) | None :: r => busy_of r end.
+Definition busy (p : pool) : nat := busy_of (p_workers p).
+
+(** the in-flight counter read off the events alone (what the harness measures) *)
+Fixpoint peak_from (cur : nat) (tr : list pev) : nat :=
   match tr with
   | [] => cur
-  | Start _ :: r => Nat.max cur (max_inflight_from (S cur) r)
-  | Finish _ :: r => Nat.max cur (max_inflight_from (pred cur) r)
+  | Take _ _ :: r => Nat.max cur (peak_from (S cur) r)
+  | Done _ :: r => Nat.max cur (peak_from (pred cur) r)
+  | _ :: r => peak_from cur r
   end.
-Definition max_inflight (tr : list pev) : nat := max_inflight_from 0 tr.
+Definition peak (tr : list pev) : nat := peak_from 0 tr.
 
 (* ------------------------------------------------------------------------------------------------ *)
 (** * Registry order and the default / SAST selection *)
 Definition cm_row := (str * bool)%type.            (* codemod id, origin == "pixee" *)
 Definition entry_point := (N * list cm_row)%type.  (* identity of the entry point, the collection it loads *)
 
-Fixpoint dedup_eps (seen : list N) (eps : list entry_point) : list entry_point :=
-  match eps with
-  | [] => []
-  | e :: r => if existsb (N.eqb (fst e)) seen then dedup_eps seen r else e :: dedup_eps (fst e :: seen) r
+(** ** Hash containers (the order-relevant facts of CPython's dict and set; open addressing is abstracted to buckets).
+    [h] is the seeded hash.  A lookup inspects only the bucket of the key: entries with the same hash, compared with ==. *)
+Definition mem_hashed {A} (eqb : A -> A -> bool) (h : A -> N) (k : A) (entries : list A) : bool :=
+  existsb (fun e => N.eqb (h e) (h k) && eqb e k) entries.
+
+(** dict.fromkeys(seq): a key that is found (through its hash) is skipped, a new key is appended to the entries;
+    iteration over a dict follows the entries, i.e. insertion order. *)
+Fixpoint fromkeys_from {A} (eqb : A -> A -> bool) (h : A -> N) (entries seq : list A) : list A :=
+  match seq with
+  | [] => entries
+  | k :: r => if mem_hashed eqb h k entries then fromkeys_from eqb h entries r else fromkeys_from eqb h (entries ++ [k]) r
+  end.
+Definition dict_fromkeys {A} (eqb : A -> A -> bool) (h : A -> N) (seq : list A) : list A := fromkeys_from eqb h [] seq.
+
+(** iteration over a set with [m] slots walks the table: slot 0, 1, ..., m-1; an element sits in slot (hash mod m) *)
+Definition slots (m : N) : list N := map N.of_nat (seq 0 (N.to_nat m)).
+Definition slot_iter {A} (h : A -> N) (m : N) (l : list A) : list A :=
+  flat_map (fun i => List.filter (fun e => N.eqb (h e mod m) i) l) (slots m).
+(** set(seq): same insertion discipline as a dict, iteration in slot order *)
+Definition set_iter {A} (eqb : A -> A -> bool) (h : A -> N) (m : N) (seq : list A) : list A :=
+  slot_iter h m (dict_fromkeys eqb h seq).
+
+(** the hash-free reference: first occurrences, in sequence order *)
+Fixpoint dedup_from {A} (eqb : A -> A -> bool) (acc seq : list A) : list A :=
+  match seq with
+  | [] => acc
+  | k :: r => if existsb (fun e => eqb e k) acc then dedup_from eqb acc r else dedup_from eqb (acc ++ [k]) r
   end.
 
-Fixpoint insert_key {A} (key : A -> N) (e : A) (l : list A) : list A :=
-  match l with
-  | [] => [e]
-  | y :: r => if (key e <=? key y)%N then e :: l else y :: insert_key key e r
-  end.
-(** iteration over a set: an order chosen by the seeded hash of the elements, here the key function *)
-Definition sort_key {A} (key : A -> N) (l : list A) : list A := fold_right (insert_key key) [] l.
-Definition set_order (h : N -> N) (l : list entry_point) : list entry_point := sort_key (fun e => h (fst e)) l.
+Definition ep_eqb (a b : entry_point) : bool := N.eqb (fst a) (fst b).
+Definition ep_hash (h : N -> N) (e : entry_point) : N := h (fst e).
+Definition dedup_eps (eps : list entry_point) : list entry_point := dedup_from ep_eqb [] eps.
 
-(** load_registered_codemods: the order in which the collections are added *)
-Definition iter_order (v : iter_form) (h : N -> N) (eps : list entry_point) : list entry_point :=
+(** load_registered_codemods: the order in which the collections are added; [h] = seeded hash of an entry point,
+    [m] = size of the set's table *)
+Definition iter_order (v : iter_form) (h : N -> N) (m : N) (eps : list entry_point) : list entry_point :=
   match v with
-  | Deterministic => dedup_eps [] eps
-  | OverSet => set_order h (dedup_eps [] eps)
+  | Deterministic => dict_fromkeys ep_eqb (ep_hash h) eps
+  | OverSet => set_iter ep_eqb (ep_hash h) m eps
   end.
 (** add_codemod_collection appends the codemods of each collection (ids are distinct) *)
-Definition registry_of (v : iter_form) (h : N -> N) (eps : list entry_point) : list cm_row :=
-  flat_map snd (iter_order v h eps).
+Definition registry_of (v : iter_form) (h : N -> N) (m : N) (eps : list entry_point) : list cm_row :=
+  flat_map snd (iter_order v h m eps).
 
 (** match_codemods, no --codemod-include: registry order, minus the excluded names, pixee xor sast_only *)
 Definition match_default (excluded : list str) (sast_only : bool) (reg : list cm_row) : list str :=
   map fst (List.filter (fun r => negb (mem_str (fst r) excluded) && xorb sast_only (snd r)) reg).
 (** the order in which codemods run, which is also the order of [results] in the report (compile_results) *)
-Definition run_order (v : iter_form) (h : N -> N) (eps : list entry_point) (excluded : list str) (sast_only : bool) : list str :=
-  match_default excluded sast_only (registry_of v h eps).
+Definition run_order (v : iter_form) (h : N -> N) (m : N) (eps : list entry_point) (excluded : list str) (sast_only : bool) : list str :=
+  match_default excluded sast_only (registry_of v h m eps).
 
 (* ------------------------------------------------------------------------------------------------ *)
 (** * Order of the matched files *)
@@ -207,7 +270,10 @@ Fixpoint insert_sorted (x : str) (l : list str) : list str :=
   | y :: r => if str_leb x y then x :: l else y :: insert_sorted x r
   end.
 Definition sort_paths (l : list str) : list str := fold_right insert_sorted [] l.
-(** match_files: the matched relative paths (put in a set in enumeration order) as returned;
-    [h] stands for the seeded hash of str *)
-Definition match_order (v : order_form) (h : str -> N) (enumerated : list str) : list str :=
-  match v with SortedPaths => sort_paths enumerated | SetOrder => sort_key h enumerated end.
+(** match_files: the matched relative paths (each once, in enumeration order) are put in a set of str
+    ([h] = seeded hash of str, [m] = table size); the set is returned sorted, or as iterated *)
+Definition match_order (v : order_form) (h : str -> N) (m : N) (enumerated : list str) : list str :=
+  match v with
+  | SortedPaths => sort_paths (slot_iter h m enumerated)
+  | SetOrder => slot_iter h m enumerated
+  end.
